@@ -23,7 +23,17 @@ struct Elem {
 	Elem() { prio = 0; serial = 0; in = false; }
 };
 // compare(a, b): a is ordered before b (top() is an element ordered before no other)
-struct Less { bool operator()(const Elem *a, const Elem *b) const { return a->prio < b->prio; } };
+// The comparator has state that it picks up when it is constructed (a direction, as a scheduler configures "highest first" or "lowest
+// first" queues of one type). The heap constructs its comparator once and has to keep using that object: the harness sets the
+// direction to +1 while a heap is constructed and to -1 afterwards, so a comparator that the library constructs later orders the other
+// way round.
+int g_dir = 1;
+struct Less {
+	int dir;
+	Less() : dir(g_dir) {}
+	explicit Less(int d) : dir(d) {}
+	bool operator()(const Elem *a, const Elem *b) const { return dir >= 0 ? a->prio < b->prio : b->prio < a->prio; }
+};
 using Heap = frg::pairing_heap<Elem, frg::locate_member<Elem, frg::pairing_heap_hook<Elem>, &Elem::hook>, Less>;
 constexpr int POOL = 160;
 
@@ -80,7 +90,7 @@ struct Run {
 		if(ref.empty()) return;
 		Elem *top = heap->top();
 		VCHECK(c, "C08", top != nullptr && std::find(ref.begin(), ref.end(), top) != ref.end(), "after %s: top() is not a contained element", after);
-		for(Elem *x : ref) VCHECK(c, "C08", !Less{}(top, x), "after %s: top() #%d (prio %d) is ordered before the contained element #%d (prio %d)", after, top->serial, top->prio, x->serial, x->prio);
+		for(Elem *x : ref) VCHECK(c, "C08", !Less(1)(top, x), "after %s: top() #%d (prio %d) is ordered before the contained element #%d (prio %d)", after, top->serial, top->prio, x->serial, x->prio);
 	}
 	// "a removed element's hook is reset": it is in the state the hook's constructor leaves (compared field by field with a hook that was
 	// just constructed; whether it can be pushed again is exercised by the re-push operations, and the hook's destructor - which asserts
@@ -113,7 +123,9 @@ void run(Ctx &c, bool scripted) {
 	Elem *pool = (Elem *)c.raw(sizeof(Elem) * POOL);
 	memset((void *)pool, 0xA5, sizeof(Elem) * POOL);
 	for(int i = 0; i < POOL; i++) { new (&pool[i]) Elem; pool[i].serial = i; }
+	g_dir = 1;
 	Run r{c, c.make<Heap>(), {}, {}};
+	g_dir = -1;
 	int next_free = 0; std::vector<Elem *> free_list;
 	bool nt = false;
 	unsigned pmode = scripted ? 0 : t.pick(4);      // 0 tiny range (ties), 1 ascending, 2 descending, 3 random
@@ -206,7 +218,7 @@ void *deep_thread(void *p) {
 	DeepArgs &a = *(DeepArgs *)p;
 	try {
 	std::vector<Elem> elems(a.n);
-	Heap heap;
+	g_dir = 1; Heap heap; g_dir = -1;
 	// shape 0: descending priorities (every push becomes a child of the root... or the new root), 1: ascending, 2: a few big fans
 	for(unsigned i = 0; i < a.n; i++) { elems[i].serial = (int)i; elems[i].prio = a.shape == 0 ? (int)(a.n - i) : a.shape == 1 ? (int)i : (int)((i * 7919u) % 5u) * 100000 + (int)i; heap.push(&elems[i]); }
 	if(a.shape == 2 && a.n > 10) { heap.remove(&elems[a.n / 2]); elems[a.n / 2].prio = -1; }      // remove a non-root element of a big heap
